@@ -99,6 +99,12 @@ def _mk():
     T["reduce"] = (lambda s, n: A.reduce(_first, s[0].gen(), None), 1, "aw", lambda n: 2)
     T["nlargest"] = (lambda s, n: A.nlargest(s[0].gen(), n), 1, "aw", lambda n: n + 2)
     T["nsmallest"] = (lambda s, n: A.nsmallest(s[0].gen(), n, key=lambda o: o.n), 1, "aw", lambda n: n + 2)
+    # all items equal (ties with the current worst candidate)
+    T["nlargest_ties"] = (lambda s, n: A.nlargest(s[0].gen(), n, key=lambda o: 0), 1, "aw", lambda n: n + 2)
+    T["nsmallest_ties"] = (lambda s, n: A.nsmallest(s[0].gen(), n, key=lambda o: o.n % 2), 1, "aw", lambda n: n + 2)
+    T["min_ties"] = (lambda s, n: A.min(s[0].gen(), key=lambda o: 0), 1, "aw", lambda n: 3)
+    T["max_ties"] = (lambda s, n: A.max(s[0].gen(), key=lambda o: 0), 1, "aw", lambda n: 3)
+    T["merge_ties"] = (lambda s, n: A.merge(s[0].gen(), s[1].gen(), key=lambda o: 0), 2, "it", lambda n: 4)
     return T
 
 
@@ -124,7 +130,7 @@ def h_retain(L: int, n: int):
     for v in (1, 2, 3):
         if n == v:
             nn = v
-    if name not in ("batched", "islice", "nlargest", "nsmallest"):
+    if name not in ("batched", "islice", "nlargest", "nsmallest", "nlargest_ties", "nsmallest_ties"):
         nn = 1
     ok = True
     steps = 0
